@@ -1,15 +1,199 @@
 import Nv.Model.C13
+import Nv.Proofs.C13
+import Nv.Proofs.C13Cons
 /-!
-C13 — property theorems (model: `Nv.Model.C13`).
+C13 — property theorems (model: `Nv.Model.C13`, lemmas: `Nv.Proofs.C13`).
+
+Every statement quantifies over all reachable states of the transition system, i.e. over all numbers of
+producers and consumers, all interleavings of the critical sections (add / prior add / close / try-close / consumer
+entry / resume of a woken consumer) and all choices a `Signal` can make; over every queue shape of C12 (`Par.sh`,
+`Par.ssh` are arbitrary) and over every wake configuration in `ProvedWake` — `Broadcast` on close, *either*
+primitive on add (one item needs one consumer).
+Progress ("returns as soon as") is stated as safety: in no quiescent reachable state does a consumer wait beside a
+closed queue or beside an item; that a woken goroutine eventually runs is an assumption on the Go scheduler.
 -/
 namespace Nv.C13
 open Nv.C12
 
-/-- today's `SyncQueue.Close` uses `Signal`: two consumers parked, Close, resume the woken one — one consumer stays
-    parked beside a closed queue (defect F12; the same script is the replay on the real code). -/
+/-- the invariant holds in every reachable state -/
+theorem inv_reachable (P : Par) (hP : ProvedWake P.kind P.wk) (a b : Int) :
+    ∀ s, (lts P (P.newQ a b)).Reach s → Inv' P s := by
+  apply LTS.inv_of_step
+  · exact ⟨inv_init _, fun _ => rfl⟩
+  · intro s act s' hI h
+    exact inv_step P hP s s' act hI h
+
+/-- **No stuck waiter.** In every reachable state in which no thread is mid-operation (nobody has been woken and
+    not yet re-tested the loop guard), a consumer is parked only if the queue is open and holds nothing. -/
+theorem q_no_stuck_waiter (P : Par) (hP : ProvedWake P.kind P.wk) (a b : Int) (s : CS)
+    (hr : (lts P (P.newQ a b)).Reach s) (hq : s.woken = []) (hp : s.parked ≠ []) :
+    s.q.closed = false ∧ s.q.ctrl = [] ∧ s.q.req = [] := by
+  have hI := (inv_reachable P hP a b s hr).1
+  cases hc : s.q.closed with
+  | true => exact absurd (hI.1 hc) hp
+  | false =>
+    have := hI.2 hc hp
+    rw [hq] at this
+    simp [LQ.size] at this
+    exact ⟨rfl, this.1, this.2⟩
+
+/-- **Close releases every blocked consumer.** From any reachable state, after `Close` and any further steps, once
+    nobody is mid-operation every consumer that was parked (or woken) at the time of the close has returned. -/
+theorem close_releases_all (P : Par) (hP : ProvedWake P.kind P.wk) (a b : Int) (s s' : CS) (w : Tid) (as : List Act)
+    (hr : (lts P (P.newQ a b)).Reach s) (hrun : (lts P (P.newQ a b)).run s (.close w :: as) = some s')
+    (hq : s'.woken = []) :
+    ∀ t, (t ∈ tids s.parked ∨ t ∈ tids s.woken) → t ∈ tids s'.done := by
+  intro t ht
+  have hr' := LTS.reach_of_run _ _ s s' hr hrun
+  have hI := (inv_reachable P hP a b s' hr').1
+  have hhas : s'.has t := run_has P _ _ s s' hrun t (by
+    rcases ht with h | h
+    · exact Or.inl h
+    · exact Or.inr (Or.inl h))
+  have hcl : s'.q.closed = true := by
+    simp only [LTS.run] at hrun
+    split at hrun
+    · cases hrun
+    · rename_i s1 hs1
+      exact run_closed P _ as s1 s' hrun (close_sets_closed P s s1 w hs1)
+  have hp := hI.1 hcl
+  rcases hhas with h | h | h
+  · rw [hp] at h; cases h
+  · rw [hq] at h; cases h
+  · exact h
+
+/-- the system in which items leave the queue only through consumers (`SyncQueue.TryPop` by an outsider excluded) -/
+def ltsC (P : Par) (q0 : LQ) : LTS CS Act :=
+  ⟨CS.init q0, fun s a => if a = .tryPop then none else step P s a⟩
+
+theorem reach_of_reachC (P : Par) (q0 : LQ) (s : CS) (h : (ltsC P q0).Reach s) : (lts P q0).Reach s := by
+  induction h with
+  | init => exact LTS.Reach.init
+  | @step s1 a s2 _ hs ih =>
+    simp only [ltsC] at hs
+    split at hs
+    · cases hs
+    · exact LTS.Reach.step (a := a) ih hs
+
+/-- **Nothing lost, duplicated or invented under concurrency**: in every reachable state, for every item value, the
+    copies handed to consumers plus the copies still queued are exactly the copies accepted by adds. -/
+theorem conc_conservation (P : Par) (a b : Int) (s : CS) (hr : (ltsC P (P.newQ a b)).Reach s) : Cons s := by
+  refine LTS.inv_of_step (ltsC P (P.newQ a b)) Cons (cons_init _ ⟨rfl, rfl⟩) ?_ s hr
+  intro s1 act s2 hC h
+  simp only [ltsC] at h
+  split at h
+  · cases h
+  · rename_i hne
+    exact cons_step P s1 s2 act hne hC h
+
+/-- **k items, k consumers.** In every quiescent reachable state in which some consumer is still parked, every
+    accepted item has been handed to a consumer, each exactly as often as it was accepted: the multiset of items
+    returned by consumers *is* the multiset of accepted items. Hence k accepted (distinct) items while at least k
+    consumers were blocked means k consumers have returned, with k distinct items; and whenever fewer consumers
+    than items were blocked nobody is parked at all (`q_no_stuck_waiter`). -/
+theorem k_items_k_consumers (P : Par) (hP : ProvedWake P.kind P.wk) (a b : Int) (s : CS)
+    (hr : (ltsC P (P.newQ a b)).Reach s) (hq : s.woken = []) (hp : s.parked ≠ []) :
+    (vals s.done).Perm s.accepted := by
+  have hn := q_no_stuck_waiter P hP a b s (reach_of_reachC P _ s hr) hq hp
+  have hC := conc_conservation P a b s hr
+  rw [List.perm_iff_count]
+  intro y
+  have := hC y
+  simp only [items, hn.2.1, hn.2.2, List.append_nil, List.count_nil] at this
+  omega
+
+/-- after a close the woken consumers can always run to completion: a woken thread's resume is enabled, and on a
+    closed queue it returns (it never parks again) -/
+theorem resume_returns_when_closed (P : Par) (s : CS) (e : Tid × Bool) (he : s.woken.find? (fun x => x.1 == e.1) = some e)
+    (hc : s.q.closed = true) (hk : P.kind = .syncq → s.q.ctrl = []) :
+    ∃ s', step P s (.resume e.1) = some s' ∧ s'.parked = s.parked ∧ s'.woken = s.woken.erase e ∧
+      e.1 ∈ tids s'.done := by
+  have hstep : step P s (.resume e.1) =
+      some (enter P.kind P.sh e.1 e.2 { s with woken := s.woken.erase e }) := by simp only [step, he]
+  refine ⟨_, hstep, ?_⟩
+  unfold enter
+  cases hat : attempt P.kind P.sh e.2 s.q with
+  | none =>
+    have := attempt_none P.kind P.sh e.2 s.q hk hat
+    rw [this.2] at hc; cases hc
+  | some r => simp [tids]
+
+/-- **PriQueue: the wait channel is readable beside a non-empty queue.** In every reachable state in which the
+    queue is non-empty, no `Push`/`Pop` is between its unlock and its signal, and no consumer holds a received
+    signal it has not yet followed by a `Pop`, the channel holds its element. All interleavings of the locked
+    parts, the signal parts and the receives are covered, for every `Less` shape and capacity. -/
+theorem priq_waitch_readable (sh : PriShape) (pc : PriCfg) (hp : ProvedPri pc) (cap : Int) (s : PS)
+    (hr : (plts sh pc cap).Reach s) (hne : s.q.entries ≠ []) (h1 : s.pushGap = 0) (h2 : s.popGap = 0)
+    (h3 : s.holders = 0) : s.token = true := by
+  have hI : PInv s := by
+    refine LTS.inv_of_step (plts sh pc cap) PInv (pinv_init cap) ?_ s hr
+    intro s a s' hI h
+    exact pinv_step sh pc hp s s' a hI h
+  rcases hI hne with h | h | h | h
+  · exact h
+  · omega
+  · omega
+  · omega
+
+/-! ### non-vacuity -/
+
+example : ProvedWake .q ⟨.broadcast, .broadcast, .broadcast, .none⟩ := by decide
+example : ProvedWake .mq ⟨.broadcast, .signal, .broadcast, .broadcast⟩ := by decide
+/-- the negative control of DESIGN Appendix B: `Signal` instead of `Broadcast` in an add is inside the proved set -/
+example : ProvedWake .q ⟨.signal, .broadcast, .broadcast, .none⟩ := by decide
+/-- the repaired SyncQueue -/
+example : ProvedWake .syncq ⟨.signal, .signal, .broadcast, .none⟩ := by decide
+example : ProvedPri ⟨true, true⟩ := by decide
+
+/-- a reachable quiescent state with a parked consumer (hypotheses of `q_no_stuck_waiter` are satisfiable):
+    two consumers park, one item arrives, one consumer takes it, the other parks again -/
+example :
+    (lts ⟨.q, Shape.expected, SyncShape.expected, ⟨.broadcast, .broadcast, .broadcast, .none⟩⟩ (LQ.new .q 0 0)).run
+      (CS.init (LQ.new .q 0 0)) [.popCall 1 false, .popCall 2 true, .add 7 0, .resume 2, .resume 1]
+      = some ⟨LQ.new .q 0 0, [(1, false)], [], [(2, .val 7)], [7]⟩ := by decide
+
+/-- a reachable PriQueue state satisfying the hypotheses of `priq_waitch_readable` -/
+example : (plts PriShape.expected ⟨true, true⟩ 3).run (PS.init 3)
+      [.pushLock 1 0, .pushSignal, .pushLock 2 5, .pushSignal, .recv, .popLock true, .popSignal]
+      = some ⟨⟨[⟨0, 1, 1⟩], 3, 2⟩, true, 0, 0, 0⟩ := by decide
+
+/-! ### today's defective configuration, and the mutations of DESIGN Appendix B: the property is false -/
+
+/-- today's `SyncQueue.Close` uses `Signal`: two consumers parked, Close, the woken one resumes and returns — the
+    other stays parked beside a closed queue with nobody mid-operation (defect F12; script `new syncq / pop / pop /
+    close` is the replay on the real code). -/
 theorem witness_signal_on_close :
     (lts ⟨.syncq, Shape.expected, SyncShape.expected, ⟨.signal, .signal, .signal, .none⟩⟩ (LQ.new .syncq 0 0)).run
       (CS.init (LQ.new .syncq 0 0)) [.popCall 1 false, .popCall 2 false, .close 1, .resume 1]
       = some ⟨closeQ (LQ.new .syncq 0 0), [(2, false)], [], [(1, .nil)], []⟩ := by decide
+
+theorem not_no_stuck_waiter_signal_on_close :
+    ¬ (∀ s, (lts ⟨.syncq, Shape.expected, SyncShape.expected, ⟨.signal, .signal, .signal, .none⟩⟩ (LQ.new .syncq 0 0)).Reach s →
+        s.woken = [] → s.parked ≠ [] → s.q.closed = false) := by
+  intro h
+  have hr := LTS.reach_of_run _ _ _ _ LTS.Reach.init witness_signal_on_close
+  have := h _ hr rfl (by decide)
+  revert this; decide
+
+/-- an add that wakes nobody loses the wake-up: consumer parked, item added, consumer still parked beside it -/
+theorem witness_add_without_wake :
+    (lts ⟨.q, Shape.expected, SyncShape.expected, ⟨.none, .broadcast, .broadcast, .none⟩⟩ (LQ.new .q 0 0)).run
+      (CS.init (LQ.new .q 0 0)) [.popCall 1 false, .add 7 0]
+      = some ⟨{ LQ.new .q 0 0 with req := [7] }, [(1, false)], [], [], [7]⟩ := by decide
+
+/-- PriQueue `Pop` without the re-signal: two entries, one signal received, one Pop — an entry is left, nothing is
+    in flight, nobody holds a signal, and the channel is empty -/
+theorem witness_priq_no_resignal :
+    (plts PriShape.expected ⟨true, false⟩ 3).run (PS.init 3)
+      [.pushLock 1 0, .pushSignal, .pushLock 2 0, .pushSignal, .recv, .popLock true]
+      = some ⟨⟨[⟨0, 2, 2⟩], 3, 2⟩, false, 0, 0, 0⟩ := by decide
+
+theorem not_waitch_readable_no_resignal :
+    ¬ (∀ s, (plts PriShape.expected ⟨true, false⟩ 3).Reach s → s.q.entries ≠ [] → s.pushGap = 0 → s.popGap = 0 →
+        s.holders = 0 → s.token = true) := by
+  intro h
+  have hr := LTS.reach_of_run _ _ _ _ LTS.Reach.init witness_priq_no_resignal
+  have := h _ hr (by decide) rfl rfl rfl
+  revert this; decide
 
 end Nv.C13
